@@ -310,12 +310,13 @@ type respScript struct {
 	comp         bool   // backend declares gzip
 	errCode      uint32 // 0 = OK
 	errMsg       string
-	errAfter     int  // number of messages written before the error end (<= len(msgs))
-	trailersOnly bool // gRPC: status in the header block, no body
-	declareLen   bool // unary targets: set Content-Length
-	splitAt      int  // split each Write at this offset (0 = single write)
-	writeMode    int  // wm* segmentation of the response body
-	noHead       bool // never call WriteHeader explicitly
+	details      []refDetail // error details carried by the error end
+	errAfter     int         // number of messages written before the error end (<= len(msgs))
+	trailersOnly bool        // gRPC: status in the header block, no body
+	declareLen   bool        // unary targets: set Content-Length
+	splitAt      int         // split each Write at this offset (0 = single write)
+	writeMode    int         // wm* segmentation of the response body
+	noHead       bool        // never call WriteHeader explicitly
 	trailerHdrs  http.Header
 	respHdrs     http.Header
 	announce     bool // gRPC trailers announced via "Trailer" header instead of http.TrailerPrefix
@@ -444,10 +445,149 @@ func refCodeName(c uint32) string {
 	return "code_" + strconv.Itoa(int(c))
 }
 
+// refDetail: one error detail (message type name and serialized bytes).
+type refDetail struct {
+	typ string
+	val []byte
+}
+
+const refB64StdAlphabet = "ABCDEFGHIJKLMNOPQRSTUVWXYZabcdefghijklmnopqrstuvwxyz0123456789+/"
+
+// refBase64RawStd: unpadded standard base64 (what Connect JSON and gRPC binary headers use).
+func refBase64RawStd(b []byte) string {
+	var out []byte
+	for i := 0; i < len(b); i += 3 {
+		var v uint32
+		n := 0
+		for j := 0; j < 3; j++ {
+			v <<= 8
+			if i+j < len(b) {
+				v |= uint32(b[i+j])
+				n++
+			}
+		}
+		out = append(out, refB64StdAlphabet[v>>18&63], refB64StdAlphabet[v>>12&63])
+		if n > 1 {
+			out = append(out, refB64StdAlphabet[v>>6&63])
+		}
+		if n > 2 {
+			out = append(out, refB64StdAlphabet[v&63])
+		}
+	}
+	return string(out)
+}
+
+func refBase64RawStdDecode(s string) ([]byte, bool) {
+	for len(s) > 0 && s[len(s)-1] == '=' {
+		s = s[:len(s)-1]
+	}
+	var out []byte
+	var acc uint32
+	bits := 0
+	for i := 0; i < len(s); i++ {
+		v := strings.IndexByte(refB64StdAlphabet, s[i])
+		if v < 0 {
+			return nil, false
+		}
+		acc = acc<<6 | uint32(v)
+		bits += 6
+		if bits >= 8 {
+			bits -= 8
+			out = append(out, byte(acc>>uint(bits)))
+		}
+	}
+	return out, true
+}
+
+// refStatusWire: google.rpc.Status on the wire, written from the protobuf encoding rules (all lengths < 128).
+func refStatusWire(code uint32, msg string, details []refDetail) []byte {
+	var b []byte
+	if code != 0 {
+		b = append(b, 0x08, byte(code))
+	}
+	if msg != "" {
+		b = append(append(b, 0x12, byte(len(msg))), msg...)
+	}
+	for _, d := range details {
+		url := "type.googleapis.com/" + d.typ
+		var a []byte
+		a = append(append(a, 0x0A, byte(len(url))), url...)
+		if len(d.val) > 0 {
+			a = append(append(a, 0x12, byte(len(d.val))), d.val...)
+		}
+		b = append(append(b, 0x1A, byte(len(a))), a...)
+	}
+	return b
+}
+
+// refStatusDetails reads the details back out of a serialized google.rpc.Status.
+func refStatusDetails(b []byte) ([]refDetail, bool) {
+	var out []refDetail
+	for len(b) > 0 {
+		if len(b) < 2 {
+			return nil, false
+		}
+		tag, n := b[0], int(b[1])
+		if tag == 0x08 {
+			b = b[2:]
+			continue
+		}
+		if len(b)-2 < n {
+			return nil, false
+		}
+		body := b[2 : 2+n]
+		b = b[2+n:]
+		if tag != 0x1A {
+			continue
+		}
+		var d refDetail
+		for len(body) > 0 {
+			if len(body) < 2 || len(body)-2 < int(body[1]) {
+				return nil, false
+			}
+			t, m := body[0], int(body[1])
+			switch t {
+			case 0x0A:
+				d.typ = strings.TrimPrefix(string(body[2:2+m]), "type.googleapis.com/")
+			case 0x12:
+				d.val = append([]byte(nil), body[2:2+m]...)
+			}
+			body = body[2+m:]
+		}
+		out = append(out, d)
+	}
+	return out, true
+}
+
+func sameDetails(a, b []refDetail) bool {
+	if len(a) != len(b) {
+		return false
+	}
+	eq := true
+	for i := range a {
+		eq = eq && a[i].typ == b[i].typ && bytesEq(a[i].val, b[i].val)
+	}
+	return eq
+}
+
 func refJSONError(code uint32, msg string) string {
+	return refJSONErrorDetails(code, msg, nil)
+}
+
+func refJSONErrorDetails(code uint32, msg string, details []refDetail) string {
 	s := `{"code":"` + refCodeName(code) + `"`
 	if msg != "" {
 		s += `,"message":"` + msg + `"`
+	}
+	if len(details) > 0 {
+		s += `,"details":[`
+		for i, d := range details {
+			if i > 0 {
+				s += ","
+			}
+			s += `{"type":"` + d.typ + `","value":"` + refBase64RawStd(d.val) + `"}`
+		}
+		s += "]"
 	}
 	return s + "}"
 }
@@ -528,6 +668,9 @@ func (b *pipeBackend) ServeHTTP(w http.ResponseWriter, r *http.Request) {
 		if s.errMsg != "" {
 			h.Set("Grpc-Message", s.errMsg)
 		}
+		if len(s.details) > 0 {
+			h.Set("Grpc-Status-Details-Bin", refBase64RawStd(refStatusWire(s.errCode, s.errMsg, s.details)))
+		}
 		for k, v := range s.trailerHdrs {
 			h[k] = v
 		}
@@ -539,6 +682,9 @@ func (b *pipeBackend) ServeHTTP(w http.ResponseWriter, r *http.Request) {
 	}
 	if b.target == ProtocolGRPC && s.announce {
 		names := []string{"Grpc-Status", "Grpc-Message"}
+		if len(s.details) > 0 {
+			names = append(names, "Grpc-Status-Details-Bin")
+		}
 		for _, k := range sortedHeaderKeys(s.trailerHdrs) {
 			if s.announceLow {
 				k = strings.ToLower(k)
@@ -586,6 +732,9 @@ func (b *pipeBackend) ServeHTTP(w http.ResponseWriter, r *http.Request) {
 		if s.errMsg != "" {
 			h.Set(pre+"Grpc-Message", s.errMsg)
 		}
+		if len(s.details) > 0 {
+			h.Set(pre+"Grpc-Status-Details-Bin", refBase64RawStd(refStatusWire(s.errCode, s.errMsg, s.details)))
+		}
 		for k, v := range s.trailerHdrs {
 			h[pre+k] = v
 		}
@@ -597,6 +746,9 @@ func (b *pipeBackend) ServeHTTP(w http.ResponseWriter, r *http.Request) {
 		if s.errMsg != "" {
 			blk += "grpc-message: " + s.errMsg + "\r\n"
 		}
+		if len(s.details) > 0 {
+			blk += "grpc-status-details-bin: " + refBase64RawStd(refStatusWire(s.errCode, s.errMsg, s.details)) + "\r\n"
+		}
 		for k, vs := range s.trailerHdrs {
 			for _, v := range vs {
 				blk += strings.ToLower(k) + ": " + v + "\r\n"
@@ -606,7 +758,7 @@ func (b *pipeBackend) ServeHTTP(w http.ResponseWriter, r *http.Request) {
 	default:
 		js := "{"
 		if s.errCode != 0 {
-			js += `"error":` + refJSONError(s.errCode, s.errMsg)
+			js += `"error":` + refJSONErrorDetails(s.errCode, s.errMsg, s.details)
 		}
 		if len(s.trailerHdrs) > 0 {
 			if s.errCode != 0 {
@@ -665,7 +817,7 @@ func (b *pipeBackend) serveUnary(w http.ResponseWriter, s *respScript) {
 			st = 500
 		}
 		h.Set("Content-Type", "application/json")
-		body := []byte(refJSONError(s.errCode, s.errMsg))
+		body := []byte(refJSONErrorDetails(s.errCode, s.errMsg, s.details))
 		if s.declareLen {
 			h.Set("Content-Length", strconv.Itoa(len(body)))
 		}
@@ -700,14 +852,16 @@ func (b *pipeBackend) serveUnary(w http.ResponseWriter, s *respScript) {
 // ---- client-side reference parse of the transcoder's response --------------------------------------
 
 type clientOutcome struct {
-	valid   bool // response is well-formed for the client's protocol
-	why     string
-	msgs    [][]byte
-	code    uint32 // 0 = success
-	message string
-	hasMsg  bool
-	ends    int // number of terminal dispositions seen
-	trailer http.Header
+	valid      bool // response is well-formed for the client's protocol
+	why        string
+	msgs       [][]byte
+	code       uint32 // 0 = success
+	message    string
+	hasMsg     bool
+	details    []refDetail // error details the client can read (nil when none / not readable: REST)
+	badDetails bool
+	ends       int // number of terminal dispositions seen
+	trailer    http.Header
 	// httpRejected: refused with a bare HTTP status before dispatch
 	httpRejected bool
 	dupStatus    bool
@@ -782,6 +936,36 @@ func grpcStatusFrom(h http.Header, o *clientOutcome) {
 		o.message = d
 		o.hasMsg = true
 	}
+	if bin := h.Get("Grpc-Status-Details-Bin"); bin != "" {
+		raw, ok := refBase64RawStdDecode(bin)
+		var ds []refDetail
+		if ok {
+			ds, ok = refStatusDetails(raw)
+		}
+		if !ok {
+			o.badDetails = true
+		}
+		o.details = ds
+	}
+}
+
+// jsonErrorDetails extracts the details from the canonical error JSON.
+func jsonErrorDetails(b []byte) ([]refDetail, bool) {
+	var e connectWireError
+	c := &jsonCursor{b: b}
+	in, err := jsonParseWireError(c, &e)
+	if !in || err != nil {
+		return nil, false
+	}
+	var out []refDetail
+	for _, d := range e.Details {
+		v, ok := refBase64RawStdDecode(d.Value)
+		if !ok {
+			return nil, false
+		}
+		out = append(out, refDetail{typ: d.Type, val: v})
+	}
+	return out, true
 }
 
 // jsonErrorFields extracts code/message from the canonical error JSON the model emits.
@@ -914,6 +1098,13 @@ func refParseClientResponse(cfg *pipeCfg, sink *fakeSink, dispatched bool) clien
 						o.code = uint32(se.Error.Code)
 						o.message = se.Error.Message
 						o.hasMsg = true
+						for _, d := range se.Error.Details {
+							v, ok := refBase64RawStdDecode(d.Value)
+							if !ok {
+								o.badDetails = true
+							}
+							o.details = append(o.details, refDetail{typ: d.Type, val: v})
+						}
 					}
 					o.trailer = se.Metadata
 				}
@@ -1001,6 +1192,11 @@ func refParseClientResponse(cfg *pipeCfg, sink *fakeSink, dispatched bool) clien
 			return fail("error response with OK code")
 		}
 		o.code, o.message, o.hasMsg = c, msg, true
+		if ds, ok := jsonErrorDetails(sink.body); ok {
+			o.details = ds
+		} else {
+			o.badDetails = true
+		}
 		want, _ := refStatusFromRPC(c)
 		if c > 16 {
 			want = 500
